@@ -139,3 +139,86 @@ Proof. intros. field. repeat split; lra. Qed.
 (** the helical virtual teeth number z / (cos(beta_b)^2 * cos(beta)) *)
 Theorem virtual_teeth_identity (z cb ch : R) : cb <> 0 -> ch <> 0 -> z / (cb * cb) / ch = z / (cb * cb * ch).
 Proof. intros. field. split; assumption. Qed.
+
+(** ** the stresses through the quantity layer: whatever units the module, face width, diameters, moduli and force are written
+    in, the result is a Stress whose SI magnitude (Pa) is the documented expression of the SI magnitudes *)
+Theorem qsin_si (q : rq) x s : base_kind (qk q) = KAngularPosition -> @qsin RA q = Ok x -> si q = Ok s -> x = sin s.
+Proof. intros Hk H Hs. unfold qsin, bind in H. destruct (trig_arg q) as [y|] eqn:E; [|discriminate]. injection H as <-. rewrite (trig_arg_si _ _ _ Hk E Hs). reflexivity. Qed.
+
+(** bending stress of a spur or helical gear:  F_t / (m b) / Y  *)
+Theorem bending_stress_doc (g : @gear RA) r mate (ft S m fw : rq) Y F sm sb :
+  g_kind g <> EWheel -> lewis_factor g = Ok Y ->
+  g_module g = Some m -> g_face g = Some fw -> qk m = KLength -> qk fw = KLength -> qk ft = KForce ->
+  si m = Ok sm -> si fw = Ok sb -> si ft = Ok F ->
+  bending_stress g r mate ft = Ok S ->
+  sm * sb <> 0 /\ Y <> 0 /\ qk S = KStress /\ si S = Ok (F / (sm * sb) / Y).
+Proof.
+  intros Hk HY Hm Hf km kf kft ssm ssb sF H. unfold bending_stress, bind in H. rewrite HY in H.
+  assert (H' : (ar <- q_mulq m fw ;; st <- q_divq ft ar ;; q_divn st Y) = Ok S).
+  { destruct (g_kind g); try contradiction; rewrite Hm, Hf in H; exact H. }
+  clear H. unfold bind in H'.
+  destruct (q_mulq m fw) as [ar|] eqn:Ea; [|discriminate]. destruct (q_mulq_si _ _ _ _ _ Ea ssm ssb) as (ka & sa).
+  destruct (q_divq ft ar) as [st|] eqn:Es; [|discriminate]. destruct (q_divq_si _ _ _ _ _ Es sF sa) as (Hn & ks & ss).
+  destruct (q_divn_si _ _ _ _ H' ss) as (HYn & kS & _ & sS).
+  rewrite km, kf in ka. cbn in ka. injection ka as ka. rewrite kft, <- ka in ks. cbn in ks. injection ks as ks.
+  repeat split; auto. congruence.
+Qed.
+
+Lemma pa_factor : @factor RA GEN KStress "Pa" = Ok 1.
+Proof. cbn. f_equal. unfold Q2R; cbn; lra. Qed.
+Lemma pa20_si : si (@PA20 RA) = Ok (20 * (PI / 180)).
+Proof.
+  unfold si, bind, PA20. cbn [qk qu qv]. change G with GEN.
+  assert (E : @factor RA GEN KAngle "deg" = Ok (PI / 180)).
+  { cbn. f_equal. unfold Q2R; cbn. change (@pi RA) with PI. toR. field. }
+  rewrite E. reflexivity.
+Qed.
+
+(** contact stress of a spur gear against a spur or helical mate (alpha = 20 deg):
+      0.262922 * sqrt( E_eq * p ),  E_eq = 2 E1 E2/(E1+E2),  p = (F_t / cos alpha) / ( b * (sin alpha / 2) * d1 d2/(d1+d2) )
+    which [contact_identity] shows to be the documented Hertz expression *)
+Theorem contact_stress_spur_doc (g mt : @gear RA) r (ft S m1 m2 fw e1 e2 : rq) F sm1 sm2 sb E1 E2 :
+  g_kind g = ESpur -> (g_kind mt = ESpur \/ g_kind mt = EHelical) -> r <> None ->
+  g_module g = Some m1 -> g_module mt = Some m2 -> g_face g = Some fw -> g_emod g = Some e1 -> g_emod mt = Some e2 ->
+  qk m1 = KLength -> qk m2 = KLength -> qk fw = KLength -> qk e1 = KStress -> qk e2 = KStress -> qk ft = KForce ->
+  si m1 = Ok sm1 -> si m2 = Ok sm2 -> si fw = Ok sb -> si e1 = Ok E1 -> si e2 = Ok E2 -> si ft = Ok F ->
+  contact_stress g r (Some mt) ft = Ok S ->
+  let d1 := IZR (g_n g) * sm1 in let d2 := IZR (g_n mt) * sm2 in let al := 20 * (PI / 180) in
+  qk S = KStress /\
+  si S = Ok (131461 / 500000 * sqrt ((2 * E1 * (E2 / (E1 + E2))) * (F / cos al / (sb * (sin al / 2 * d1 * (d2 / (d1 + d2))))))).
+Proof.
+  intros Hk Hkm Hr Hm1 Hm2 Hf He1 He2 k1 k2 kf ke1 ke2 kft s1 s2 ssb sE1 sE2 sF H.
+  unfold contact_stress, bind in H. destruct r as [role|]; [|contradiction]. rewrite Hm2, He2, He1, Hf in H. cbn [the] in H.
+  assert (Hd2 : ref_diameter mt = q_rmul (of_Z (g_n mt)) m2).
+  { unfold ref_diameter. destruct Hkm as [-> | ->]; rewrite Hm2; reflexivity. }
+  assert (Hd1 : ref_diameter g = q_rmul (of_Z (g_n g)) m1) by (unfold ref_diameter; rewrite Hk, Hm1; reflexivity).
+  rewrite Hd1, Hd2, Hk in H.
+  destruct (q_rmul (of_Z (g_n mt)) m2) as [dm|] eqn:Edm; [|discriminate]. destruct (q_rmul_si _ _ _ _ Edm s2) as (kdm & _ & sdm).
+  destruct (q_rmul (of_Z (g_n g)) m1) as [d|] eqn:Ed; [|discriminate]. destruct (q_rmul_si _ _ _ _ Ed s1) as (kd & _ & sd).
+  destruct (q_add e1 e2) as [es|] eqn:Ees; [|discriminate]. destruct (q_add_si _ _ _ _ _ Ees sE1 sE2) as (_ & _ & ses).
+  destruct (q_ratio e2 es) as [k|] eqn:Ek; [|discriminate]. destruct (q_ratio_si _ _ _ _ _ Ek sE2 ses) as (_ & ->).
+  destruct (q_rmul (of_Z 2) e1) as [e2x|] eqn:Ee2; [|discriminate]. destruct (q_rmul_si _ _ _ _ Ee2 sE1) as (ke2x & _ & se2x).
+  destruct (q_muln e2x _) as [eeq|] eqn:Eeq; [|discriminate]. destruct (q_muln_si _ _ _ _ Eeq se2x) as (keeq & _ & seeq).
+  destruct (qsin PA20) as [sn|] eqn:Esn; [|discriminate]. rewrite (qsin_si (@PA20 RA) _ _ eq_refl Esn pa20_si) in *.
+  destruct (qcos PA20) as [cs|] eqn:Ecs; [|discriminate]. rewrite (qcos_si (@PA20 RA) _ _ eq_refl Ecs pa20_si) in *.
+  destruct (q_add d dm) as [ds|] eqn:Eds; [|discriminate]. destruct (q_add_si _ _ _ _ _ Eds sd sdm) as (_ & _ & sds).
+  destruct (q_ratio dm ds) as [k2'|] eqn:Ek2; [|discriminate]. destruct (q_ratio_si _ _ _ _ _ Ek2 sdm sds) as (_ & ->).
+  destruct (q_rmul _ d) as [i1|] eqn:Ei1; [|discriminate]. destruct (q_rmul_si _ _ _ _ Ei1 sd) as (ki1 & _ & si1).
+  destruct (q_muln i1 _) as [ics|] eqn:Eics; [|discriminate]. destruct (q_muln_si _ _ _ _ Eics si1) as (kics & _ & sics).
+  destruct (q_divn ft _) as [f1|] eqn:Ef1; [|discriminate]. destruct (q_divn_si _ _ _ _ Ef1 sF) as (_ & kf1 & _ & sf1).
+  destruct (q_mulq fw ics) as [ar|] eqn:Ear; [|discriminate]. destruct (q_mulq_si _ _ _ _ _ Ear ssb sics) as (kar & sar).
+  destruct (q_divq f1 ar) as [cp|] eqn:Ecp; [|discriminate]. destruct (q_divq_si _ _ _ _ _ Ecp sf1 sar) as (_ & kcp & scp).
+  (* kinds: area is a Surface, contact pressure a Stress *)
+  rewrite kf, kics, ki1, kd, k1 in kar. cbn in kar. injection kar as kar.
+  rewrite kf1, kft, <- kar in kcp. cbn in kcp. injection kcp as kcp.
+  destruct (q_to eeq "Pa") as [ep|] eqn:Eep; [|discriminate]. destruct (q_to_si _ _ _ _ Eep seeq) as (kep & uep & sep).
+  destruct (q_to cp "Pa") as [cpp|] eqn:Ecpp; [|discriminate]. destruct (q_to_si _ _ _ _ Ecpp scp) as (kcpp & ucpp & scpp).
+  assert (Vep : qv ep = 2 * E1 * (E2 / (E1 + E2))).
+  { unfold si, bind in sep. rewrite kep, keeq, ke2x, ke1, uep in sep. change G with GEN in sep. rewrite pa_factor in sep. injection sep as sep. toR. lra. }
+  assert (Vcp : qv cpp = F / cos (20 * (PI / 180)) / (sb * (sin (20 * (PI / 180)) / 2 * (IZR (g_n g) * sm1) * (IZR (g_n mt) * sm2 / (IZR (g_n g) * sm1 + IZR (g_n mt) * sm2))))).
+  { unfold si, bind in scpp. rewrite kcpp, <- kcp, ucpp in scpp. change G with GEN in scpp. rewrite pa_factor in scpp. injection scpp as scpp.
+    change (@div RA) with Rdiv in *. change (@of_Z RA 2) with (IZR 2) in *. change (@of_Z RA (g_n g)) with (IZR (g_n g)) in *. change (@of_Z RA (g_n mt)) with (IZR (g_n mt)) in *. toR. lra. }
+  apply q_new_eq in H. subst S. cbn zeta. split; [reflexivity|].
+  rewrite (si_mk _ _ _ _ pa_factor). f_equal. rewrite Vep, Vcp. unfold lit. cbn [fst]. change (@mul RA) with Rmult. change (@sqrtn RA) with sqrt.
+  unfold Q2R; cbn. toR. lra.
+Qed.
